@@ -59,6 +59,23 @@ static bool same_chunk(const Out &a, size_t i, const Out &b, size_t j) {
     return memcmp(a.file.data() + oa, b.file.data() + ob, x.comp_len) == 0;
 }
 
+// Two writers alive at the same time in one thread, fed alternately (an application producing several files at once): each output
+// must be the file its content and configuration give when written alone.
+static bool write_interleaved(const lib::WCfg &cfg, const Bytes &Da, const std::vector<lib::WOp> &oa, const Bytes &Db, const std::vector<lib::WOp> &ob, Bytes &fa, Bytes &fb, std::string &err) {
+    int fd[2] = {memfd_create("ia", 0), memfd_create("ib", 0)}; zckCtx *z[2] = {zck_create(), zck_create()}; const Bytes *D[2] = {&Da, &Db}; const std::vector<lib::WOp> *ops[2] = {&oa, &ob};
+    size_t at[2] = {0, 0}, off[2] = {0, 0}; bool ok = true;
+    for (int k = 0; k < 2 && ok; k++) { if (!zck_init_write(z[k], fd[k]) || !lib::apply_cfg(z[k], cfg, err)) ok = false; }
+    while (ok && (at[0] < ops[0]->size() || at[1] < ops[1]->size())) for (int k = 0; k < 2 && ok; k++) {
+        if (at[k] >= ops[k]->size()) continue; const lib::WOp &op = (*ops[k])[at[k]++];
+        if (op.end) { if (zck_end_chunk(z[k]) < 0) { ok = false; err = zck_get_error(z[k]); } }
+        else { size_t n = std::min(op.n, D[k]->size() - off[k]); if (zck_write(z[k], (const char *)D[k]->data() + off[k], n) != (ssize_t)n) { ok = false; err = zck_get_error(z[k]); } off[k] += n; }
+    }
+    for (int k = 0; k < 2 && ok; k++) { if (off[k] < D[k]->size() && zck_write(z[k], (const char *)D[k]->data() + off[k], D[k]->size() - off[k]) < 0) ok = false; if (ok && !zck_close(z[k])) { ok = false; err = zck_get_error(z[k]); } }
+    if (ok) { fa = lib::fd_bytes(fd[0]); fb = lib::fd_bytes(fd[1]); }
+    for (int k = 0; k < 2; k++) { zck_free(&z[k]); close(fd[k]); }
+    return ok;
+}
+
 static void prop(Ctx &c) {
     // content: mostly random (hash boundaries) or low entropy (max boundaries), big enough for several chunks
     size_t cap = c.tier ? (3u << 20) : (1u << 20);
@@ -120,6 +137,13 @@ static void prop(Ctx &c) {
     std::vector<size_t> ends2; for (size_t e : ends) { if (e <= pre) ends2.push_back(e); else if (e >= D1.size() - suf) ends2.push_back(e - D1.size() + D2.size()); }
     std::sort(ends2.begin(), ends2.end());
     Out d = run(c, cfg, D2, make_ops(D2.size(), gen_cuts(c, D2.size()), ends2), "edited content");
+    // (e) the same two contents written by two contexts that are alive together and fed alternately
+    if (c.gver >= 4 && c.rarely(3)) {
+        std::vector<lib::WOp> opsd = make_ops(D2.size(), gen_cuts(c, D2.size()), ends2); Bytes fa, fb; std::string err;
+        if (!write_interleaved(cfg, D1, ops2, D2, opsd, fa, fb, err)) c.fail("write-failed", "interleaved writers: " + err);
+        c.label("interleaved-writers");
+        if (fa != a.file || fb != d.file) c.fail("depends-on-other-context", std::string("two writers fed alternately in one thread: the ") + (fa != a.file ? "first" : "second") + " output differs from the file the same content and configuration give when written alone");
+    }
     // (b) prefix locality
     size_t same_pref = 0;
     for (size_t i = 0; i < nch; i++) {
